@@ -134,8 +134,8 @@ def scenario(cfg, src, symbolic: bool) -> List[str]:
         if op == 'ctor_kw':
             # constructor keyword through the alias == through the variable
             kwv = [np.float64(1.5 + j) for j in range(n)] if not symbolic else [1.5 + j for j in range(n)]
-            r1 = _run(lambda: M(list(labels), dtype=float, **{alias: kwv}))
-            r2 = _run(lambda: M2(list(labels), dtype=float, **{canon: kwv}))
+            r1 = _run(lambda: M(list(labels), dtype=float, strict=strict, **{alias: kwv}))
+            r2 = _run(lambda: M2(list(labels), dtype=float, strict=strict, **{canon: kwv}))
             if r1[0] != r2[0]:
                 return [f'constructor keyword via alias {alias}: {r1[:2] if r1[0] == "exc" else "model"} vs canonical {r2[:2] if r2[0] == "exc" else "model"}']
             if r1[0] == 'ret':
@@ -293,7 +293,7 @@ def configs(tier: str):
             for op in ('label_write', 'label_read', 'slice_write', 'slice_read'):
                 for la, lb in (('I', 'A'), ('base', 'J'), ('A', 'A'), ('J', 'I'), ('zz', 'A')):
                     out.append(cfg18(amap=amap, op=op, alias=alias, n=4, span='str', la=la, lb=lb))
-            for op in ('attr_write', 'attr_write_seq', 'key_write', 'replace_values', 'pos_write', 'evaluate', 'attr_read'):
+            for op in ('attr_write', 'attr_write_seq', 'key_write', 'replace_values', 'pos_write', 'evaluate', 'attr_read', 'ctor_kw'):
                 out.append(cfg18(amap=amap, op=op, alias=alias, n=3, strict=True))
     return out
 
